@@ -1,4 +1,4 @@
-import Rare.Props.C04
+import Rare.Proofs.C04
 import Rare.Model.C01Chunk
 /-!
 C01 × C04: the tokens a reader goroutine hands to its batching loop are the lines of the bytes its reader
@@ -10,11 +10,53 @@ open Rare
 
 private theorem bufSize_pos : 1 ≤ Rare.Gen.readAheadBufferSize := by decide
 
+/-! The three facts about "call `Scan()` until it answers false" that the seam needs, from the lemmas of
+    `Proofs/C04.lean` (they are C04's `imm_terminates`, `imm_tokens_eq_split`, `imm_error_once`; restated here so
+    that this file depends on C04's model and lemmas only, not on its translator output). -/
+
+private def immRun (bufSize : Nat) (data : Bytes) (script : List C04.Step) : List (C04.View × Bytes) × Bool × C04.Imm :=
+  let fuel := data.length + script.length + 3
+  C04.Imm.scanAll fuel fuel (C04.Imm.init bufSize ⟨data, script⟩)
+
+private theorem run_good (bufSize : Nat) (data : Bytes) (script : List C04.Step) (h : 1 ≤ bufSize) :
+    C04.Good (C04.Imm.init bufSize ⟨data, script⟩) [] := C04.good_init _ _ h
+
+private theorem imm_terminates (bufSize : Nat) (data : Bytes) (script : List C04.Step) (h : 1 ≤ bufSize) :
+    (immRun bufSize data script).2.1 = true := by
+  apply C04.scanAll_done _ data _ (run_good bufSize data script h)
+  · simp [C04.Imm.init]
+  · simp [C04.Imm.init, C04.Reader.measure]; omega
+  · simp [C04.Imm.init, C04.Imm.consumed]; omega
+
+private theorem imm_tokens_eq_split (bufSize : Nat) (data : Bytes) (script : List C04.Step) (h : 1 ≤ bufSize) :
+    (immRun bufSize data script).1.map (·.2) = C04.splitLines (immRun bufSize data script).2.2.delivered ∧
+    (immRun bufSize data script).2.2.delivered <+: data := by
+  have hg := run_good bufSize data script h
+  have hdone := imm_terminates bufSize data script h
+  constructor
+  · have := C04.scanAll_good _ _ hg hdone
+    simp only [List.nil_append] at this
+    exact this.symm
+  · have := C04.scanAll_closed (C04.closed_stream data) (data.length + script.length + 3)
+      (data.length + script.length + 3) hg (by simp [C04.Imm.init])
+    exact ⟨_, this⟩
+
+private theorem imm_error_once (bufSize : Nat) (data : Bytes) (script : List C04.Step) (h : 1 ≤ bufSize) :
+    ((immRun bufSize data script).2.2.errs = 0 ∨
+      ((immRun bufSize data script).2.2.errs = 1 ∧ (immRun bufSize data script).2.2.eof = true)) ∧
+    ((∀ st ∈ script, st.err ≠ some .fail) → (immRun bufSize data script).2.2.errs = 0) := by
+  have hg := run_good bufSize data script h
+  constructor
+  · exact C04.scanAll_closed C04.closed_errs _ _ hg (Or.inl (by simp [C04.Imm.init]))
+  · intro hs
+    exact (C04.scanAll_closed C04.closed_nofail _ _ hg (s := C04.Imm.init bufSize ⟨data, script⟩)
+      ⟨by simpa [C04.Imm.init] using hs, by simp [C04.Imm.init]⟩).2
+
 private theorem scanSrc_opened (s : SrcIn) (h : s.opened = true) :
-    scanSrc s = ⟨(C04.Imm.run Rare.Gen.readAheadBufferSize s.data s.script).1.map (·.2),
-      (C04.Imm.run Rare.Gen.readAheadBufferSize s.data s.script).2.2.errs,
-      (C04.Imm.run Rare.Gen.readAheadBufferSize s.data s.script).2.2.delivered⟩ := by
-  simp [scanSrc, h, C04.Imm.run]
+    scanSrc s = ⟨(immRun Rare.Gen.readAheadBufferSize s.data s.script).1.map (·.2),
+      (immRun Rare.Gen.readAheadBufferSize s.data s.script).2.2.errs,
+      (immRun Rare.Gen.readAheadBufferSize s.data s.script).2.2.delivered⟩ := by
+  simp [scanSrc, h, immRun]
 
 /-- the tokens are the lines of the delivered bytes -/
 theorem scanSrc_tokens (s : SrcIn) : (scanSrc s).tokens = C04.splitLines (scanSrc s).delivered := by
@@ -22,7 +64,7 @@ theorem scanSrc_tokens (s : SrcIn) : (scanSrc s).tokens = C04.splitLines (scanSr
   | false => simp [scanSrc, h, C04.splitLines, C04.splitGo]
   | true =>
     rw [scanSrc_opened s h]
-    exact (C04.imm_tokens_eq_split _ s.data s.script bufSize_pos).1
+    exact (imm_tokens_eq_split _ s.data s.script bufSize_pos).1
 
 /-- the lines handed to the batching loop of source `i` are `linesOf i` of the delivered bytes -/
 theorem scannedLines_eq (i : Nat) (s : SrcIn) : scannedLines i s = linesOf i (deliveredOf s) := by
@@ -44,14 +86,14 @@ theorem deliveredOf_prefix (s : SrcIn) : deliveredOf s <+: s.data := by
   | false => simp [deliveredOf, scanSrc, h]
   | true =>
     simp only [deliveredOf, scanSrc_opened s h]
-    exact (C04.imm_tokens_eq_split _ s.data s.script bufSize_pos).2
+    exact (imm_tokens_eq_split _ s.data s.script bufSize_pos).2
 
 /-- a reader that reports no error before the end delivers the whole stream, however it chunks it -/
 theorem deliveredOf_full (s : SrcIn) (ho : s.opened = true) (hs : ∀ st ∈ s.script, st.err = none) :
     deliveredOf s = s.data := by
   open C04 in
   have hg : Good (Imm.init Rare.Gen.readAheadBufferSize ⟨s.data, s.script⟩) [] := good_init _ _ bufSize_pos
-  have hdone := C04.imm_terminates _ s.data s.script bufSize_pos
+  have hdone := imm_terminates _ s.data s.script bufSize_pos
   have hstream := C04.scanAll_closed (C04.closed_stream s.data) (s.data.length + s.script.length + 3)
       (s.data.length + s.script.length + 3) hg (by simp [C04.Imm.init])
   have hdr := C04.scanAll_closed C04.closed_drained (s.data.length + s.script.length + 3)
@@ -61,7 +103,7 @@ theorem deliveredOf_full (s : SrcIn) (ho : s.opened = true) (hs : ∀ st ∈ s.s
   have hrest := hdr.2 heof
   simp only [deliveredOf, scanSrc_opened s ho]
   have := hstream
-  unfold C04.Imm.run
+  unfold immRun
   rw [hrest] at this; simpa using this
 
 theorem srcErrs_le_one (s : SrcIn) : (scanSrc s).errs ≤ 1 := by
@@ -69,14 +111,14 @@ theorem srcErrs_le_one (s : SrcIn) : (scanSrc s).errs ≤ 1 := by
   | false => simp [scanSrc, h]
   | true =>
     rw [scanSrc_opened s h]
-    rcases (C04.imm_error_once _ s.data s.script bufSize_pos).1 with h0 | ⟨h1, _⟩
+    rcases (imm_error_once _ s.data s.script bufSize_pos).1 with h0 | ⟨h1, _⟩
     · simp [h0]
     · simp [h1]
 
 theorem srcErrs_zero (s : SrcIn) (ho : s.opened = true) (hs : ∀ st ∈ s.script, st.err ≠ some .fail) :
     (scanSrc s).errs = 0 := by
   rw [scanSrc_opened s ho]
-  exact (C04.imm_error_once _ s.data s.script bufSize_pos).2 hs
+  exact (imm_error_once _ s.data s.script bufSize_pos).2 hs
 
 theorem srcErrs_closed (s : SrcIn) (ho : s.opened = false) : (scanSrc s).errs = 1 := by
   simp [scanSrc, ho]
